@@ -404,7 +404,8 @@ fn main() {
             let desc = json!({"rules": lines, "tags": tags, "url": url, "source": src, "type": ty, "matched_rule": mr, "force_check_exceptions": fc, "matching_ids": matching, "impl": vjson(&got)});
             if got != want {
                 // is every lost rule in a known class?
-                let lost: Vec<&NetworkFilter> = rules.iter().filter(|f| rule_matches(f, &req) && !tg_ok(f, &req)).collect();
+                // (removeparam rules indexed by their parameter name do not take part in these four bits)
+                let lost: Vec<&NetworkFilter> = rules.iter().filter(|f| !f.is_removeparam() && rule_matches(f, &req) && !tg_ok(f, &req)).collect();
                 let classes: Vec<Option<&str>> = lost.iter().map(|f| known_class(f, &req, &url)).collect();
                 let class = if !lost.is_empty() && classes.iter().all(|c| c.is_some()) { classes[0] } else { None };
                 sm.failure(class, &format!("engine says {:?}, rule-by-rule evaluation says {:?}", got, want), desc.clone());
